@@ -371,6 +371,68 @@ var scenarios = []scenario{
 		sc.b.ops.end(id)
 		sc.releaseAll()
 	}},
+	{"embargo-release", func(sc *sctx) {
+		// As "embargo", but the application drops every reference to the
+		// embargoed capability before the peer echoes the Disembargo.
+		p := sc.b.peer
+		bc := sc.bootResolved()
+		p.setHoldMethod(mLoopCap, true)
+		p.setNoDisembargo(true)
+		local := sc.keep(sc.b.srv.client())
+		sc.step("loopcap-call")
+		var ans *capnp.Answer
+		var release capnp.ReleaseFunc
+		id := sc.b.ops.begin("sendcall:loopcap")
+		sc.b.guard("Client.SendCall/loopcap", func() {
+			ans, release = bc.SendCall(sc.ctx, capnp.Send{
+				Method:   capnp.Method{InterfaceID: ifaceID, MethodID: mLoopCap},
+				ArgsSize: capnp.ObjectSize{DataSize: 8, PointerCount: 1},
+				PlaceArgs: func(s capnp.Struct) error {
+					cid := s.Message().AddCap(local.AddRef())
+					return s.SetPtr(0, capnp.NewInterface(s.Segment(), cid).ToPtr())
+				},
+			})
+		})
+		sc.b.ops.end(id)
+		if ans == nil {
+			return
+		}
+		sc.step("pipelined-call-on-result")
+		pdone := make(chan struct{})
+		sc.b.wg.Add(1)
+		go func() {
+			defer sc.b.wg.Done()
+			defer close(pdone)
+			id := sc.b.ops.begin("call:pipelined-on-loopcap")
+			defer sc.b.ops.end(id)
+			sc.b.guard("Answer.PipelineSend", func() {
+				a2, rel2 := ans.PipelineSend(sc.ctx, []capnp.PipelineOp{{Field: 0}}, capnp.Send{
+					Method:   capnp.Method{InterfaceID: ifaceID, MethodID: mEcho},
+					ArgsSize: capnp.ObjectSize{DataSize: 8, PointerCount: 1},
+				})
+				a2.Struct()
+				rel2()
+			})
+		}()
+		sc.wait("pipelined-seen", func() bool { return p.sawCall(mEcho, 1) != nil }, pdone)
+		sc.step("peer-returns-local-cap")
+		p.releaseMethod(mLoopCap)
+		id = sc.b.ops.begin("call:loopcap-result")
+		sc.b.guard("Answer.Struct/loopcap", func() { ans.Struct() })
+		sc.b.ops.end(id)
+		<-pdone
+		sc.wait("disembargo-request", func() bool { return p.sawKind(rpccp.Message_Which_disembargo, 1) })
+		sc.step("release-before-disembargo-echo")
+		id = sc.b.ops.begin("release:loopcap-answer")
+		sc.b.guard("ReleaseFunc", func() { release() })
+		sc.b.ops.end(id)
+		sc.wait("finishes", finishCount(p, 3))
+		sc.step("peer-echoes-disembargo")
+		p.echoDisembargoes()
+		sc.awaitSnap("embargo-lifted", func(st rpc.VerifConnState) bool { return st.Embargoes == 0 })
+		sc.step("release")
+		sc.releaseAll()
+	}},
 	{"concurrent", func(sc *sctx) {
 		p := sc.b.peer
 		bc := sc.bootResolved()
